@@ -22,6 +22,7 @@ type vhFakeConn struct {
 	gateAfter int
 	gateOpen  bool
 	rdeadline *time.Timer // armed by SetReadDeadline/SetDeadline: a Read waiting at the gate times out when it fires
+	rexpired  bool        // the read deadline has passed: every Read at the gate fails until the deadline is set again
 	// stallAt: a Read that reaches this offset fails once with a timeout (the rest of the data arrives later)
 	stallAt int
 	stalled bool
@@ -44,10 +45,14 @@ func (c *vhFakeConn) Read(b []byte) (int, error) {
 		return 0, io.ErrClosedPipe
 	}
 	if c.gate != nil && c.off >= c.gateAfter && !c.gateOpen {
+		if c.rexpired {
+			return 0, vhTimeoutError{}
+		}
 		if c.rdeadline != nil {
 			select {
 			case <-c.gate:
 			case <-c.rdeadline.C:
+				c.rexpired = true
 				return 0, vhTimeoutError{}
 			}
 		} else {
@@ -114,6 +119,7 @@ func (c *vhFakeConn) SetReadDeadline(t time.Time) error {
 		c.rdeadline.Stop()
 		c.rdeadline = nil
 	}
+	c.rexpired = false
 	if !t.IsZero() {
 		c.rdeadline = time.NewTimer(time.Until(t))
 	}
